@@ -69,13 +69,15 @@ def parseQ (s : String) : Option Q :=
 /-- `L:<tok>:<backing>:<schema>` | `Q:<auth or ->:<q>` — tok/auth as code-point strings -/
 def parseReq (s : String) : Option Req :=
   match s.splitOn ":" with
-  | ["L", tok, b, sch] => sch.toNat?.map fun sch => .login (decStr tok) (parseBacking b) sch
+  | ["L", tok, b, sch] =>
+    if sch == "-" then some (.login (decStr tok) (parseBacking b) none)
+    else sch.toNat?.map fun sch => .login (decStr tok) (parseBacking b) (some sch)
   | ["Q", auth, q] => (parseQ q).map fun q => .query (decOptStr auth) q
   | _ => none
 
 def encResp : Resp → String
   | .token t => s!"T:{encStr t}" | .unauthorized c => s!"U:{c}" | .status => "S"
-  | .val v => s!"V:{encOptInt v}" | .schema n => s!"C:{n}" | .rows vs => "R:" ++ ",".intercalate (vs.map toString)
+  | .val v => s!"V:{encOptInt v}" | .schema n => s!"C:{encOptNat n}" | .rows vs => "R:" ++ ",".intercalate (vs.map toString)
   | .error => "E" | .unsupported => "X"
 
 def handle : List String → String
